@@ -111,8 +111,10 @@ class Registry(object):
             self._markers, self._markers_n = m, len(self.by_key)
         return m
 
+    local_externals = ()          # externals of the scope of the contract being verified (Contract.scope): looked up first
+
     def match_external(self, dotted):
-        for pat, c in self.externals:
+        for pat, c in list(self.local_externals) + self.externals:
             if pat == dotted:
                 return c
             if pat.endswith(".*") and (dotted.startswith(pat[:-1]) or dotted == pat[:-2]):
